@@ -22,7 +22,7 @@ from common import (Check, coq_bool, coq_list, coq_str, coq_Z, parse_coq_value,
                     parse_eval_outputs, run_impl)
 
 IMPL_ENV = {"AIOKAFKA_NO_EXTENSIONS": "1"}
-IMPORTS = ["Wire", "WireTables", "KafkaSpec", "C11Negotiate", "C11Tables", "Schemas"]
+IMPORTS = ["Wire", "WireTables", "KafkaSpec", "C11Negotiate", "C11Tables", "WireRun", "Schemas"]
 TRAILER = [0xA5, 0x5A]
 
 PARAMS = ["PTransactionalId", "PIsolationLevel", "PCoordinatorType", "PTimestampSearch",
@@ -181,8 +181,13 @@ def is_trivial(tr, v):
 
 
 # ------------------------------------------------------------------------------ Coq literals
+def coq_hex(h):
+    """hex string -> Gallina list Z, via model/WireRun.v hx (string literals parse much faster than lists)"""
+    return f'(hx "{h}")' if h else "[]"
+
+
 def coq_bytes_of_hex(h):
-    return coq_list(list(bytes.fromhex(h)))
+    return coq_hex(h)
 
 
 def coq_val(tr, j):
@@ -192,7 +197,7 @@ def coq_val(tr, j):
     if k == "Boolean":
         return f"VBool {coq_bool(j)}"
     if k in ("String", "CompactString"):
-        return "VStr None" if j is None else f"VStr (Some {coq_list(list(j.encode('utf-8')))})"
+        return "VStr None" if j is None else f"VStr (Some {coq_hex(j.encode('utf-8').hex())})"
     if k in ("Bytes", "CompactBytes"):
         return "VBytes None" if j is None else f"VBytes (Some {coq_bytes_of_hex(j)})"
     if k == "TaggedFields":
@@ -352,14 +357,11 @@ def run(ck: Check):
                                  for k in ("request", "response", "aux", "schema")}
     ck.extra["builders"] = len(builders)
 
-    model_ok = ok_t and all(os.path.exists(os.path.join("coq", p)) for p in
-                            ("model/Wire.vo", "model/C11Tables.vo", "model/C11Negotiate.vo", "gen/Schemas.vo"))
+    # the executable model is needed even when a proof no longer checks
+    okm, outm = ck.coq_make(["model/WireRun.vo", "model/C11Tables.vo", "model/C11Negotiate.vo", "gen/Schemas.vo"])
+    model_ok = ok_t and okm
     if not model_ok:
-        # the model itself (not only a proof) failed to build: try to build the model files alone
-        okm, outm = ck.coq_make(["model/C11Tables.vo", "gen/Schemas.vo"])
-        model_ok = okm
-        if not okm:
-            ck.obligation("correspondence:model-builds", False, outm[-600:])
+        ck.obligation("correspondence:model-builds", False, (out_t if not ok_t else outm)[-600:])
 
     # ---------------------------------------------------------------- (2a) codec cases
     cases = []          # (name, tree, value)
@@ -434,44 +436,43 @@ def run(ck: Check):
     # ---- correspondence: the same cases through model/Wire.v inside Coq
     def case_term(name, tr, v, r):
         t = ("s_" + name) if not name.startswith("prim:") else coq_ty(tr)
-        data = list(bytes.fromhex(r["enc"])) + TRAILER if "enc" in r else []
         s = structs.get(name)
         if s and s["kind"] in ("request", "response"):
             fn = "spec_request" if s["kind"] == "request" else "spec_response"
-            spec = f"(spec_flat ({fn} {coq_Z(s['key'])} {coq_Z(s['ver'])}))"
-            fv = coq_val(flat_tree(tr), flat_val(tr, v))
+            spec = f"({fn} {coq_Z(s['key'])} {coq_Z(s['ver'])})"
         elif s and s["kind"] in ("aux", "schema"):
-            spec = f"(spec_flat (lookup {coq_str(name)} aux_spec))"
-            fv = coq_val(flat_tree(tr), flat_val(tr, v))
+            spec = f"(lookup {coq_str(name)} aux_spec)"
         else:
-            spec, fv = "None", "VTup []"
-        return f"({t}, {coq_val(tr, v)}, {coq_list(data)}, {spec}, {fv})"
+            spec = "None"
+        return f"({t}, {coq_val(tr, v)}, {coq_hex(r.get('enc', ''))}, {spec})"
 
-    header = ("Definition spec_flat (o : option ty) : option ty := "
-              "match o with Some s => Some (TSchema (flat s)) | None => None end.\n"
-              "Definition run1 (c : ty * val * list Z * option ty * val) := "
-              "let '(t, v, b, s, fv) := c in (wt t v, enc t v, dec t b, "
-              "match s with Some st => Some (enc st fv) | None => None end).\n")
-    shards = shard(list(zip(allcases, impl)), 400)
-    bodies = []
-    for sh in shards:
-        body = header + "Definition cases : list (ty * val * list Z * option ty * val) := [\n" + ";\n".join(
-            case_term(n, tr, v, r) for (n, tr, v), r in sh) + "].\nEval vm_compute in (map run1 cases).\n"
-        bodies.append(body)
+    def case_file(sh, details=False):
+        fn = "run_case_details" if details else "run_case"
+        return ("Definition cases : list (ty * val * list Z * option ty) := [\n" + ";\n".join(
+            case_term(n, tr, v, r) for (n, tr, v), r in sh) + f"].\nEval vm_compute in (map {fn} cases).\n")
+
+    pairs = list(zip(allcases, impl))
+    # balance the shards by size of the encoding
+    pairs_sorted = sorted(range(len(pairs)), key=lambda i: -len(pairs[i][1].get("enc", "")))
+    nshards = max(1, min(64, (len(pairs) + 299) // 300))
+    shard_idx = [[] for _ in range(nshards)]
+    for rank, i in enumerate(pairs_sorted):
+        shard_idx[rank % nshards].append(i)
+    shards = [[pairs[i] for i in sorted(idx)] for idx in shard_idx if idx]
     corr_ok = model_ok
     corr_detail = "" if model_ok else "model did not build"
     n_model = 0
+    disagree = []       # cases to print in detail
     layout_byte_diffs = {}
     if model_ok:
-        results = ck.coq_eval_sharded("c11_codec", IMPORTS, bodies, timeout=900)
+        results = ck.coq_eval_sharded("c11_codec", IMPORTS, [case_file(sh) for sh in shards], timeout=900)
         for sh, (okc, outc) in zip(shards, results):
             if not okc:
                 corr_ok = False
                 corr_detail = corr_detail or ("coq evaluation failed: " + outc[-400:])
                 continue
-            vals = parse_eval_outputs(outc)
             try:
-                parsed = parse_coq_value(vals[0])
+                parsed = parse_coq_value(parse_eval_outputs(outc)[0])
             except Exception as e:  # noqa: BLE001
                 corr_ok = False
                 corr_detail = corr_detail or f"cannot parse coq output: {e}"
@@ -480,46 +481,48 @@ def run(ck: Check):
                 corr_ok = False
                 corr_detail = corr_detail or f"coq printed {len(parsed)} results for {len(sh)} cases"
                 continue
-            for ((name, tr, v), r), (m_wt, m_enc, m_dec, m_spec) in zip(sh, parsed):
+            for (case, r), (m_wt, m_enc_eq, m_dec_ok, m_spec) in zip(sh, parsed):
+                name, tr, v = case
                 n_model += 1
-                in_domain = (name, tr, v) not in domain_cases
+                in_domain = case not in domain_cases
                 if "exc" in r:
+                    # the real encoder refused the value: the model must say "outside the domain"
                     if m_wt:
                         corr_ok = False
                         corr_detail = corr_detail or f"{name}: model says in range, real encode raised {r['exc']} on {v!r}"
                     continue
-                real = list(bytes.fromhex(r["enc"]))
-                if m_enc != real:
+                real_dec_ok = ("dec_exc" not in r) and r.get("dec") == v and bool(r.get("rest_ok"))
+                why = None
+                if not m_enc_eq:
+                    why = "bytes differ"
+                elif in_domain and not m_wt:
+                    why = "generated value is outside the model's domain"
+                elif m_dec_ok != real_dec_ok and (m_wt or in_domain):
+                    why = f"decode differs (model round trip {m_dec_ok}, real {real_dec_ok})"
+                if why:
                     corr_ok = False
-                    corr_detail = corr_detail or (f"{name}: bytes differ on {json.dumps(v)[:200]}: real {r['enc'][:80]} "
-                                                  f"model {bytes(b % 256 for b in m_enc).hex()[:80]}")
-                    continue
-                if in_domain and not m_wt:
-                    corr_ok = False
-                    corr_detail = corr_detail or f"{name}: generated value not in the model's domain: {json.dumps(v)[:200]}"
-                    continue
-                # decode of the real bytes (+ trailer) by the model
-                try:
-                    if m_dec is None:
-                        md = None
-                    else:
-                        md = (from_coq_val(tr, m_dec[1][0]), m_dec[1][1])
-                except Exception as e:  # noqa: BLE001
-                    md = ("unparsable", str(e))
-                if "dec_exc" in r:
-                    real_dec = None
-                else:
-                    real_dec = (r["dec"], TRAILER if r.get("rest_ok") else "?")
-                if md != real_dec and (m_wt or in_domain):
-                    corr_ok = False
-                    corr_detail = corr_detail or (f"{name}: decode differs on {r['enc'][:80]}: real "
-                                                  f"{json.dumps(real_dec)[:160]} model {json.dumps(md)[:160]}")
-                # bytes of the independent Kafka layout table
+                    if len(disagree) < 4:
+                        disagree.append((case, r, why))
                 if m_spec is not None and in_domain:
-                    sb = m_spec[1] if isinstance(m_spec, tuple) else m_spec
-                    if sb != real:
-                        layout_byte_diffs.setdefault(name, {"struct": name, "value": v, "real_bytes": r["enc"],
-                                                            "kafka_table_bytes": bytes(b % 256 for b in sb).hex()})
+                    spec_ok = m_spec[1] if isinstance(m_spec, tuple) else m_spec
+                    if not spec_ok and name not in layout_byte_diffs:
+                        layout_byte_diffs[name] = (case, r)
+        # details for the cases that disagree / deviate (small second evaluation)
+        want = [(c, r) for c, r, _ in disagree] + list(layout_byte_diffs.values())
+        if want:
+            okc, outc = ck.coq_eval("c11_codec_details", IMPORTS, case_file(want, details=True), timeout=600)
+            det = parse_coq_value(parse_eval_outputs(outc)[0]) if okc else [None] * len(want)
+            for (case, r, why), d in zip(disagree, det):
+                name, tr, v = case
+                model_bytes = bytes(b % 256 for b in d[0]).hex() if d else "?"
+                corr_detail = corr_detail or (f"{name}: {why} on value {json.dumps(v)[:300]}: real bytes {r.get('enc', '')[:120]} "
+                                              f"model bytes {model_bytes[:120]}; real decode {json.dumps(r.get('dec', r.get('dec_exc')))[:120]}")
+            for (name, (case, r)), d in zip(list(layout_byte_diffs.items()), det[len(disagree):]):
+                sb = None
+                if d and d[2] is not None:
+                    sb = bytes(b % 256 for b in (d[2][1] if isinstance(d[2], tuple) else d[2])).hex()
+                layout_byte_diffs[name] = {"struct": name, "value": case[2], "real_bytes": r["enc"],
+                                           "kafka_table_bytes": sb}
     ck.obligation("correspondence:codec-model-vs-real-classes", corr_ok, corr_detail)
     ck.extra["codec_cases_model"] = n_model
     ck.count(n=n_model, nontrivial=False)
@@ -531,10 +534,10 @@ def run(ck: Check):
         body = (
             "Eval vm_compute in (map rq_name (filter (fun r => negb (req_layout_ok r)) requests) ++ "
             "map rs_name (filter (fun r => negb (resp_layout_ok r)) responses) ++ "
-            "map fst (filter (fun e => negb (aux_layout_ok e)) aux_structs)).\n"
+            "map fst (filter (fun e => negb (aux_layout_ok e)) aux_structs))%list.\n"
             "Eval vm_compute in (map rq_name (filter (fun r => negb (req_covered r)) requests) ++ "
             "map rs_name (filter (fun r => negb (resp_covered r)) responses) ++ "
-            "map fst (filter (fun e => negb (aux_covered e)) aux_structs)).\n"
+            "map fst (filter (fun e => negb (aux_covered e)) aux_structs))%list.\n"
             "Eval vm_compute in (map (fun r => (rq_name r, rq_key r, rq_ver r, rq_name_ver r)) "
             "(filter (fun r => negb (pairing_ok responses r)) requests), "
             "map (fun r => rq_name r) (filter (fun r => negb (req_name_ok r)) requests), "
@@ -554,12 +557,13 @@ def run(ck: Check):
             ck.obligation("correspondence:table-evaluation", False, outc[-400:])
     # a layout deviation is a violation with the bytes as replay (known ones are listed in known_findings.d)
     for name in sorted(set(deviating) | set(layout_byte_diffs)):
-        rp = layout_byte_diffs.get(name, {"struct": name, "note": "schema differs from KafkaSpec; no generated value "
-                                                              "produced different bytes"})
+        rp = layout_byte_diffs.get(name)
+        if not isinstance(rp, dict):
+            rp = {"struct": name, "note": "schema differs from KafkaSpec; no generated value produced different bytes"}
         rp["kind"] = "layout"
         s = structs.get(name, {})
         ck.violation(f"{name} (api key {s.get('key')}, v{s.get('ver')}) does not follow the Kafka layout of its "
-                     f"version", rp, signature=f"layout:{name}", no_input=name not in layout_byte_diffs)
+                     f"version", rp, signature=f"layout:{name}", no_input="real_bytes" not in rp)
 
     # ---------------------------------------------------------------- (2b) negotiation: model
     advs = [None] + [(lo, hi) for lo in range(14) for hi in range(lo, 14)]
